@@ -168,7 +168,7 @@ def run(chk):
                 s = scripts[cursor % len(scripts)]
                 cursor += 1
                 cases.append(dict({"name": "%s/%s/%s" % (name, fname, "".join("%s%s" % (x["act"][0], x["e"]) for x in s["steps"])),
-                                   "scen": fsc, "steps": s["steps"]}, **extra))
+                                   "scen": fsc, "steps": s["steps"], "warm": rng.choice([0, 0, 1, 2, 3, 5, 8])}, **extra))
     rc, txt, rows, wd = run_harness("TestVerifExportImport", cases, timeout=2400)
     shutil.rmtree(wd, ignore_errors=True)
     if rc != 0 or not rows:
